@@ -136,6 +136,16 @@ func findLenPairs(fn *ssa.Function) []*lenPair {
 				out = append(out, &lenPair{data: next, src: next.(*ssa.Call).Call.Args[1], n: n, nIsLn: y, via: via, what: what})
 				continue
 			}
+			// (a3) buf = binary.BigEndian.AppendUint16(buf, len(Y)) followed by append(buf, X...)
+			if strings.HasSuffix(calleeName(c), "bigEndian).AppendUint16") && len(c.Call.Args) == 3 {
+				if y, ok := lenOf(c.Call.Args[2]); ok {
+					next := nextAfter(c, func(x ssa.Instruction) bool { _, ok := isAppendBytes(x); return ok })
+					if next != nil {
+						out = append(out, &lenPair{data: next, src: next.(*ssa.Call).Call.Args[1], n: stripConv(c.Call.Args[2]), nIsLn: y, via: c, what: "16-bit length"})
+					}
+				}
+				continue
+			}
 			// (a2) PutUint16(buf[i:i+2], len(Y)) followed by copy(buf[j:], X)
 			if strings.HasSuffix(calleeName(c), "bigEndian).PutUint16") && len(c.Call.Args) == 3 {
 				y, ok := lenOf(c.Call.Args[2])
